@@ -77,7 +77,7 @@ def check_case(ctx, case):
 def run(ctx):
     rng = ctx.rng
     kits = boot.kit_classes()
-    per = ctx.budget(12, 500)
+    per = ctx.budget(20, 500)
     for cls in kits:
         name = asm.cls_name(cls)
         for j in range(per):
@@ -91,6 +91,11 @@ def run(ctx):
             elif r < 0.3:
                 wd = gen.recase(rng, wd)
             check_case(ctx, {"cls": name, "word": gen.rot(wd, rng.randrange(len(wd)))})
+    # a third site of the class's own cutter inside the wildcard run, in every spelling
+    for cls in kits:
+        for _ in range(ctx.budget(3, 100)):
+            wd = T.inner_site_instance(rng, cls)
+            check_case(ctx, {"cls": asm.cls_name(cls), "word": gen.rot(wd, rng.randrange(len(wd)))})
     for enz in asm.pick_enzymes(rng, ctx.budget(150, 4000)):
         name = str(enz)
         kind = rng.choice("MV")
